@@ -379,6 +379,12 @@ func c15Gen(c *vfCtx, emit func(c15Case)) {
 			ps := c15DocPaths(trees)
 			npaths += len(ps)
 			for pi := range ps {
+				for _, kind := range []string{"customtwice", "typeany"} {
+					if (pi%2 == 0 || c.thorough()) && (kind != "typeany" || lang == "json") {
+						via := "api"
+						emit(c15Case{Lang: lang, Doc: doc, Path: pi, Path2: -1, Kind: kind, PH: 0, Via: via})
+					}
+				}
 				for _, kind := range []string{"any", "type", "custom"} {
 					for phi := range c15PH {
 						if kind == "type" && phi > 0 {
@@ -534,6 +540,25 @@ func c15Run(c *vfCtx, cs c15Case) {
 	case "custom":
 		m := match.Custom(path, custom(ph))
 		jm, ym = append(jm, m), append(ym, m)
+	case "customtwice":
+		// the SAME matcher instance listed twice (and an Any instance before and after it): matchers take effect left to right,
+		// every occurrence runs. The callback counts its invocations.
+		n := 0
+		m := match.Custom(path, func(v any) (any, error) {
+			n++
+			return fmt.Sprintf("call %d", n), nil
+		})
+		anyM := match.Any(path).Placeholder("any ran")
+		jm, ym = append(jm, anyM, m, m, anyM, m), append(ym, anyM, m, m, anyM, m)
+		phTree = c15PHTree("call 3")
+	case "typeany":
+		// Type with an interface type parameter: every value satisfies it, the placeholder names the value's own type
+		if cs.Lang != "json" || target.Kind != "scalar" {
+			return
+		}
+		m := match.Type[any](path)
+		jm = append(jm, m)
+		phTree = &vfNode{Kind: "scalar", Scalar: ""} // checked below by prefix, and against <nil>
 	}
 	want := make([]*vfNode, len(trees))
 	copy(want, trees)
@@ -657,11 +682,11 @@ func c15Run(c *vfCtx, cs c15Case) {
 		return
 	}
 	c.addSet("states", vfHash(string(out)))
-	if cs.Kind == "type" {
+	if cs.Kind == "type" || cs.Kind == "typeany" {
 		// the placeholder is "<Type:...>": compare everything else, and the shape of the placeholder
 		if len(got) == len(want) {
 			g := got[di].atKeys(p)
-			if g.Kind != "scalar" || !strings.HasPrefix(g.Scalar, `"<Type:`) {
+			if g.Kind != "scalar" || !strings.HasPrefix(g.Scalar, `"<Type:`) || strings.Contains(g.Scalar, "<nil>") != (target.Scalar == "null") {
 				c.violation(class, fmt.Sprintf("Type at %s: value became %s", path, g), cs)
 				return
 			}
